@@ -11,8 +11,10 @@ From ABNF Require Import Base Engine AbnfRead Registry GenTypes Loader GenBundle
 
 Definition g_none : gclass :=
   {| gmod := []; gcls := []; gkind_list := true; gdeps := []; gtexts := []; gimports := []; gflags := [] |}.
-Definition g3986 : gclass := nth 3 bundled g_none.
-Definition g3987 : gclass := nth 4 bundled g_none.
+Definition by_module (m : String.string) : gclass :=
+  match find (fun g => str_eqb (gmod g) (s_of m)) bundled with Some g => g | None => g_none end.
+Definition g3986 : gclass := by_module "rfc3986"%string.
+Definition g3987 : gclass := by_module "rfc3987"%string.
 Definition g3987_unguarded : gclass :=
   {| gmod := gmod g3987; gcls := gcls g3987; gkind_list := gkind_list g3987; gdeps := gdeps g3987;
      gtexts := gtexts g3987; gimports := gimports g3987; gflags := [FlagAll true] |}.
